@@ -118,16 +118,159 @@ Section States.
   (* ---------------------------------------------------------------- *)
   (* scheme state                                                      *)
   (* ---------------------------------------------------------------- *)
+  Lemma eof_not_scheme_char :
+    isAlnum rune_error || (rune_error =? 43) || (rune_error =? 45) || (rune_error =? 46) = false.
+  Proof. vm_compute. reflexivity. Qed.
+
   Theorem sim_scheme : sim_for (fun st => st = Scheme).
   Proof.
     intros mm sm Hst [Hs Hp He Hlo Hhi Hfl Hb].
     rewrite Hst in Hs, Hb. cbn [st_map] in Hs. cbn [st_rel] in Hb.
-    destruct Hb as [Hbuf [Hsb [HR [Hlp Hfh]]]].
-    unfold mstep, sstep, step, SB.step. rewrite Hst, <- Hs. cbv beta iota zeta. rewrite He, Hp.
+    destruct Hb as [Hbuf [Hasc [HR [Hlp Hfh]]]].
+    destruct sm as [su sst sbuf sa sbr spw sp].
+    cbn [SB.m_url SB.m_buffer SB.m_state SB.m_pointer] in *. subst sst sp.
+    unfold mstep, sstep, step, SB.step. cbn [SB.m_state SB.m_pointer]. rewrite Hst. cbv beta iota zeta. rewrite He.
     set (p := (m_ptr mm + 1)%Z).
     unfold SB.scheme_state, SB.override_given, overridden. rewrite is_some_map_s.
-    Show.
-  Abort.
+    cbn [SB.m_url SB.m_buffer].
+    set (sm := SB.mkM su SB.SchemeState sbuf sa sbr spw p).
+    (* steps 3 and 4: neither a scheme character nor ':' *)
+    assert (G34 : forall e,
+      out_rel inp (is_some override) sbase
+        (if negb (is_some override) then Cont (mk NoScheme (-1) false [] (m_at mm) (m_br mm) (m_pw mm) (m_url mm))
+         else mherr c (m_url mm) InvalidURLUnit true
+                (fun u' => Cont (mk Scheme p e (m_buf mm) (m_at mm) (m_br mm) (m_pw mm) u')))
+        (if negb (is_some override)
+         then SB.SCont (SB.set_pointer (SB.set_state (SB.set_buffer sm []) SB.NoSchemeState) (-1))
+         else SB.SFail su)).
+    { intros e. destruct (is_some override) eqn:Eo; cbn [negb].
+      - destruct (mherr_fatal c (m_url mm) InvalidURLUnit
+                   (fun u' => Cont (mk Scheme p e (m_buf mm) (m_at mm) (m_br mm) (m_pw mm) u'))) as [er ->].
+        cbn [out_rel]. apply R_noted. exact HR.
+      - cbn [out_rel].
+        constructor; unfold mk; cbn [m_state m_ptr m_eof m_buf m_at m_br m_pw m_url st_map st_rel].
+        + reflexivity.
+        + reflexivity.
+        + lia.
+        + rewrite points_to_eof_spec. reflexivity.
+        + exact Hfl.
+        + cbn. split; [reflexivity|]. split; [reflexivity|]. split; [exact HR|]. apply Hlp. reflexivity.
+        + discriminate. }
+    destruct (n_inp inp <=? p)%Z eqn:En.
+    - (* the EOF code point *)
+      unfold input. rewrite here_eof by lia. cbn [SB.c_of hd_error].
+      rewrite eof_not_scheme_char. change (rune_error =? 58) with false. cbv iota. apply G34.
+    - unfold input. rewrite (here_cons inp p) by lia. cbn [SB.c_of hd_error].
+      set (r := cp_at inp p).
+      rewrite alnum_table.
+      destruct (ascii_alphanumeric r || (r =? 43) || (r =? 45) || (r =? 46)) eqn:Esc.
+      { (* a scheme character *)
+        cbn [out_rel].
+        destruct (buf_snoc sbuf r Hasc (scheme_char_lt r Esc)) as [E1 E2].
+        constructor; unfold mk; cbn [m_state m_ptr m_eof m_buf m_at m_br m_pw m_url st_map st_rel].
+        + reflexivity.
+        + reflexivity.
+        + lia.
+        + rewrite points_to_eof_spec. lia.
+        + exact Hfl.
+        + cbn [SB.m_url SB.m_buffer SB.append_to_buffer SB.set_buffer sm].
+          rewrite Hbuf. split; [exact E1|]. split; [exact E2|]. split; [exact HR|]. split; [exact Hlp|exact Hfh].
+        + discriminate. }
+      destruct (r =? 58) eqn:E58; [|apply G34].
+      (* ':' *)
+      set (u := m_url mm) in *. rewrite Hbuf.
+      assert (Esu : isSpecialScheme c (u_scheme u) = SU.is_special_scheme (SU.u_scheme su)).
+      { rewrite (RU.R_scheme u su HR). apply special_scheme_spec. exact Hspecial. }
+      assert (Esb : isSpecialScheme c (encode_runes sbuf) = SU.is_special_scheme sbuf).
+      { apply special_scheme_spec. exact Hspecial. }
+      assert (E4 : str_eqb (u_scheme u) s_file && match u_host u with Some h => is_nil h | None => true end =
+                   SU.cps_eqb (SU.u_scheme su) SU.sc_file &&
+                   match SU.u_host su with Some h => SU.host_is_empty h | None => false end).
+      { rewrite (R_scheme_file u su HR). destruct (SU.cps_eqb (SU.u_scheme su) SU.sc_file) eqn:Ef; [|reflexivity].
+        cbn [andb]. apply R_host_empty; [exact HR|]. apply Hfh. exact Ef. }
+      rewrite Esu, Esb, E4, (RU.R_includes_credentials u su HR), (R_port_some u su HR), RP.str_eqb_encode_file.
+      destruct (is_some override &&
+                (SU.is_special_scheme (SU.u_scheme su) && negb (SU.is_special_scheme sbuf)
+                 || negb (SU.is_special_scheme (SU.u_scheme su)) && SU.is_special_scheme sbuf
+                 || (SU.includes_credentials su || is_some (SU.u_port su)) && SU.cps_eqb sbuf SU.sc_file
+                 || SU.cps_eqb (SU.u_scheme su) SU.sc_file &&
+                    match SU.u_host su with Some h => SU.host_is_empty h | None => false end)) eqn:Eearly.
+      { cbn [out_rel]. exact HR. }
+      pose proof (R_set_scheme u su sbuf HR) as HR'.
+      destruct (is_some override) eqn:Eo.
+      { cbn [out_rel]. exact (R_cleanDefaultPort c _ _ Hspecial HR'). }
+      specialize (Hlp eq_refl).
+      cbn [set_scheme u_scheme SU.with_scheme SU.u_scheme].
+      change (IsSpecialScheme c (set_scheme u (encode_runes sbuf))) with (isSpecialScheme c (encode_runes sbuf)).
+      rewrite RP.str_eqb_encode_file, Esb.
+      change (SU.url_is_special (SU.with_scheme su sbuf)) with (SU.is_special_scheme sbuf).
+      fold (SU.with_scheme su sbuf). fold (set_scheme u (encode_runes sbuf)).
+      set (u' := set_scheme u (encode_runes sbuf)) in *. set (su' := SU.with_scheme su sbuf) in *.
+      assert (Hlp' : list_path su') by exact Hlp.
+      (* the comparison of the base's scheme *)
+      set (mb := match base with Some b => str_eqb (u_scheme b) (encode_runes sbuf) | None => false end).
+      set (sb_ := match sbase with Some b => SU.cps_eqb (SU.u_scheme b) sbuf | None => false end).
+      assert (Emb : mb = sb_).
+      { unfold mb, sb_. destruct base as [b|], sbase as [sb|]; cbn [base_rel] in Hbase; try contradiction; [|reflexivity].
+        rewrite (RU.R_scheme b sb Hbase), (enc_runes_ascii sbuf Hasc). apply RP.str_eqb_encode_cps. exact Hasc. }
+      assert (Hbnf : SU.cps_eqb sbuf SU.sc_file = false -> SU.is_special_scheme sbuf = true -> sb_ = true ->
+                     base_not_file sbase).
+      { unfold sb_. intros Ef Esp Eq. destruct sbase as [sb|]; [|discriminate Eq].
+        apply cps_eqb_true in Eq. exists sb. split; [reflexivity|]. rewrite Eq. split; [exact Ef|].
+        apply (Hwf sb eq_refl). unfold SU.url_is_special. rewrite Eq. exact Esp. }
+      rewrite Emb. clearbody mb sb_. clear Emb mb.
+      (* the five ways to go on *)
+      assert (GC : forall st' uu, R uu su' ->
+        match st' with File | SpecialAuthoritySlashes => True
+                     | SpecialRelativeOrAuthority => base_not_file sbase | _ => False end ->
+        out_rel inp false sbase (Cont (mk st' p false [] (m_at mm) (m_br mm) (m_pw mm) uu))
+          (SB.SCont (SB.set_state (SB.set_buffer (SB.set_url sm su') []) (st_map st')))).
+      { intros st' uu Huu Hst'. cbn [out_rel].
+        constructor; unfold mk; cbn [m_state m_ptr m_eof m_buf m_at m_br m_pw m_url].
+        - reflexivity.
+        - reflexivity.
+        - lia.
+        - rewrite points_to_eof_spec. lia.
+        - exact Hfl.
+        - destruct st'; try contradiction; cbn;
+            (split; [reflexivity|]; split; [reflexivity|]; split; [exact Huu|]; try split; assumption).
+        - discriminate. }
+      destruct (SU.cps_eqb sbuf SU.sc_file) eqn:Ef.
+      { (* "file" *)
+        destruct (negb (remainingStartsWith inp p false [47; 47])); rewrite ?mherr_warn by exact Hfail;
+          apply (GC File); try exact I; try apply R_noted; exact HR'. }
+      destruct (SU.is_special_scheme sbuf) eqn:Esp; cbn [andb].
+      { destruct sb_ eqn:Esb_.
+        - apply (GC SpecialRelativeOrAuthority); [exact HR'|]. apply Hbnf; reflexivity.
+        - apply (GC SpecialAuthoritySlashes); [exact HR'|exact I]. }
+      rewrite (remainingStartsWith_spec inp p [47]) by lia.
+      unfold input. rewrite (here_cons inp p) by lia. fold r. cbn [SB.remaining tl].
+      destruct (SB.starts_with (SB.substring_from (map rv inp) (p + 1)) [47]) eqn:Esl.
+      - (* path or authority state, the pointer moves on *)
+        assert (En2 : (n_inp inp <=? p + 1)%Z = false).
+        { destruct (n_inp inp <=? p + 1)%Z eqn:En2; [|reflexivity].
+          rewrite here_eof in Esl by lia. discriminate Esl. }
+        rewrite En2. cbn [out_rel].
+        constructor; unfold mk; cbn [m_state m_ptr m_eof m_buf m_at m_br m_pw m_url st_map st_rel].
+        + reflexivity.
+        + reflexivity.
+        + lia.
+        + rewrite points_to_eof_spec. lia.
+        + exact Hfl.
+        + cbn. split; [reflexivity|]. split; [reflexivity|]. split; [exact HR'|exact Hlp'].
+        + discriminate.
+      - (* opaque path state *)
+        cbn [out_rel].
+        constructor; unfold mk; cbn [m_state m_ptr m_eof m_buf m_at m_br m_pw m_url st_map st_rel].
+        + reflexivity.
+        + reflexivity.
+        + lia.
+        + rewrite points_to_eof_spec. lia.
+        + exact Hfl.
+        + exists []. cbn. split; [reflexivity|]. split; [reflexivity|]. split; [reflexivity|].
+          exact (R_set_path_opaque u' su' [] HR').
+        + discriminate.
+  Qed.
 
   (* ---------------------------------------------------------------- *)
   (* no scheme state                                                   *)
@@ -200,4 +343,5 @@ Section States.
 End States.
 
 Print Assumptions sim_scheme_start.
+Print Assumptions sim_scheme.
 Print Assumptions sim_no_scheme.
